@@ -21,7 +21,7 @@ import (
 // ---- profile view (from the hook exports) ----
 
 type profT struct {
-	known    []uint16                          // sorted known message numbers
+	known    []uint16 // sorted known message numbers
 	isKnown  map[uint16]bool
 	fields   map[uint16]map[byte]fit.VerifField // by lookup slot
 	byMesg   map[uint16][]fit.VerifField        // sorted by slot
@@ -263,13 +263,13 @@ func dumpFileContent(f *fit.File) string {
 // ---- guarded calls ----
 
 type callResult struct {
-	File    *fit.File
-	Files   []*fit.File
-	Header  fit.Header
-	FileId  fit.FileIdMsg
-	Err     error
-	Panic   string
-	Stack   string
+	File   *fit.File
+	Files  []*fit.File
+	Header fit.Header
+	FileId fit.FileIdMsg
+	Err    error
+	Panic  string
+	Stack  string
 }
 
 func guard(fn func()) (p string, stack string) {
